@@ -138,6 +138,11 @@ def audit_props(pid, thorough=False):
     src = strip_comments(open(path).read())
     wanted = re.findall(r"^#print axioms\s+(\S+)", src, flags=re.M)
     res["obligations"] = len(wanted)
+    # build the module (and the lemma modules it imports) …
+    rcb, outb, errb = run(["lake", "build", "BroodModel.Props." + pid], cwd=LEAN, timeout=3000)
+    if rcb != 0:
+        res["errors"].append("lake build BroodModel.Props.%s failed: %s" % (pid, (outb + errb)[-1500:]))
+    # … and re-elaborate the property file itself to collect `#print axioms`
     rc, out, err = run(["lake", "env", "lean", path], cwd=LEAN, timeout=1500)
     text = out + err
     # output format:  'Name' depends on axioms: [a, b]   |  'Name' does not depend on any axioms
